@@ -246,10 +246,26 @@ PROPS = {
         assumptions=["the 3-argument ParallelSTL::accumulate is ambiguous with std::accumulate via ADL when <numeric> is visible; the 4-argument form is tested",
                      "dyadic doubles for floating-point accumulation"],
     ),
+    "C18": dict(
+        variants={"native": ["galois_shmem", "galois_dist_async", "galois_gluon", "distbench"]},
+        extra_harnesses=["dharness"],
+        units=[dict(type="hyp", harness="py:c18", quick=120, thorough=12000, workers=6)],
+        engine="hypothesis over MPI subprocesses",
+        technique="property-based testing: Hypothesis-generated graphs, host counts, partition policies, write/read locations, reductions (min, max, add, set), bitset on/off, forced wire encodings and multi-round write plans over eligible proxies; the distributed harness applies the plan with the library's own sync structures under mpirun and dumps every proxy before/after each sync; reference = reduction over the master's previous value and the written eligible contributions",
+        rule=("cases = (graph <=60 nodes, hosts 1..4, 9 policies, write x read location (9 pairs), reduction, update bitset on/off, "
+              "-metadata auto|bitset|offsets|gids|none, 1-2 threads, 1..4 rounds of <=40 write intents resolved to eligible proxies); "
+              "non-trivial = >=2 hosts AND a mirror was written AND some round had both updated and non-updated nodes; distinct = sha1"),
+        level_text=("Oracle per round and node: every proxy readable at the read location (observational eligibility: master always; "
+                    "mirror iff it has a local out-edge / is a local destination / always) holds reduce(master_before, written eligible "
+                    "mirror values); values come from the harness' own dumps, not from Gluon. BSP sync only. Exploration only."),
+        level_note="trusted: the harness' dump/plan code, OpenMPI on one machine (arrival orders sampled, not controlled); asynchronous (BASP) sync, GPU and LCI paths are not exercised",
+        assumptions=["non-transposed (CSR) graph construction; set reduction gets at most one writer per node and round; without a bitset only min/add are used",
+                     "add-style fields are consumed (zeroed on every proxy) between rounds, as residual-like fields are by the applications"],
+    ),
     "C19": dict(
         variants={"native": ["galois_shmem", "galois_dist_async", "galois_gluon", "distbench"]},
         extra_harnesses=["dharness"],
-        units=[dict(type="hyp", harness="py:c19", quick=240, thorough=5000)],
+        units=[dict(type="hyp", harness="py:c19", quick=120, thorough=5000, workers=6)],
         engine="hypothesis over MPI subprocesses",
         technique="property-based testing: Hypothesis-generated graphs (isolated nodes, skew, fewer nodes than hosts, up to 300 nodes), host counts 1..4, all 11 partition policies, CSR and CSC variants; a distributed harness built like a lonestar app is run under mpirun and every host's dump (local edges, id maps, master/mirror lists, thread ranges) is checked against the input",
         rule=("cases = (graph, hosts in 1..4, policy in oec|iec|hovc|hivc|cvc|cvc-iec|ginger-o|ginger-i|fennel-o|fennel-i|sugar-o, CSR or CSC "
